@@ -42,7 +42,7 @@ Theorem C01_run_until_eq_run_const_step_partial : forall react req s,
   exists s' evs, run_interactive react req current s = Ok (s', evs).
 Proof. exact run_until_const. Qed.
 
-(* NEW FINDING (named F-W in the report): InteractiveContext.run() computes its iteration count once from the current
+(* NEW FINDING (named F-AB in the report): InteractiveContext.run() computes its iteration count once from the current
    global step; with a varying global step it silently takes a different number of steps than SimulationContext.run(). *)
 Theorem C01_run_until_variable_step_refuted :
   exists react req s,
